@@ -520,3 +520,5 @@ def run(ctx, prog):
     ctx.floor('raise sites reachable from the template updates', c16.rejection_clause(ctx, prog, tcls, 'C14-D8'), 4)
     ctx.floor('template row selections', n3, 2)
     ctx.floor('axis obligations (template)', n4, 20)
+    from .. import kernelvalues as _kv
+    ctx.floor('kernel value cases interpreted', _kv.clause(ctx, prog, 'C14-D12', ('template',)), 20)
